@@ -220,10 +220,64 @@ def project(pid, st):
     return '|'.join(out)
 
 
+def literal_sweep(ctx, res):
+    """C20, compile-time half: every numeric literal (source, IF, call argument, sugar) and every macro priority that does not
+    fit the word is rejected with a range error; the ones that fit are accepted and the stored values are natural numbers"""
+    import re
+    lits = ['0', '7', '2147483645', '2147483646', '2147483647', '2147483648', '4294967295', '4294967296', '4294967297',
+            '9223372036854775806', '9223372036854775807', '9223372036854775808', '18446744073709551615', '18446744073709551616',
+            '18446744073709551617'] + ['9' * d for d in range(1, 31)] + ['1' + '0' * d for d in range(1, 31)]
+    tmpls = [('assign', 'x := %s'), ('inc', 'y := 1; x := y + %s'), ('dec', 'y := 5; x := y - %s'), ('if', 'IF x = %s THEN GOTO l; x := 1; l: y := 2'),
+             ('arg', 'PROGRAM p IN a DO x0 := a END x := RUN p WITH %s END'), ('prio', 'DEFINE PRIO %s foo AS x := 1 END DEFINE foo')]
+    cases = []
+    meta = {}
+    for li, lit in enumerate(lits):
+        for kind, t in tmpls:
+            cid = 'L%d_%s' % (li, kind)
+            cases.append((cid, 'compile ' + vlib.files_fields('m', {'m': t % lit})))
+            meta[cid] = (lit, kind, t % lit)
+    io = ctx.run_impl(cases, variant='asan')
+    mo = ctx.run_model(cases, timeout_case=30)
+    runs = []
+    for cid, _ in cases:
+        lit, kind, src = meta[cid]
+        res.evaluations += 1
+        res.count('literal_' + kind)
+        line = io[cid]
+        case = {'source': {'files': {'m': src}, 'main': 'm'}}
+        if not line.startswith('ok='):
+            res.violations.append(dict(case, what='crash', detail=line[:150]))
+            continue
+        ok = line.startswith('ok=1')
+        fits = int(lit) < 2147483647
+        has_range = 'Mrange' in line[:line.index('PROG')]
+        if fits and not ok:
+            res.violations.append(dict(case, what='literal', detail='literal %s fits the word but the source is rejected: %s' % (lit, line[:150])))
+        if not fits and (ok or not has_range):
+            res.violations.append(dict(case, what='literal', detail='literal %s does not fit the word but %s' % (lit, 'the source is accepted' if ok else 'no range error is reported: ' + line[:150])))
+        if mo is not None and not mo[cid].startswith('TIMEOUT'):
+            res.compared += 1
+            a = line[:line.index('PROG')] if 'PROG' in line else line
+            b = mo[cid][:mo[cid].index('PROG')] if 'PROG' in mo[cid] else mo[cid]
+            if a != b:
+                res.tie_broken.append(dict(case, what='literal handling differs from the model', impl=a[:300], model=b[:300]))
+        if ok:
+            runs.append((cid, 'vm %s 1 XS 2000' % line[line.index('PROG'):]))
+            res.nontrivial.add(('literal', src))
+    ro = ctx.run_impl(runs, variant='asan')
+    for cid, _ in runs:
+        lit, kind, src = meta[cid]
+        out = ro[cid]
+        if out.startswith(('CRASH', 'TIMEOUT')) or 'inv=range' in out:
+            res.violations.append({'source': {'files': {'m': src}, 'main': 'm'}, 'what': 'range', 'detail': 'running the accepted program: ' + out[:200]})
+
+
 def explore(ctx, res, replay=None):
     pid = ctx.pid
     rng = ctx.rng
     quick = ctx.quick()
+    if pid == 'C20' and not replay:
+        literal_sweep(ctx, res)
     # ---- programs -----------------------------------------------------------------------------
     srcs = list(gen_prog.small_programs())
     nrand = 40 if quick else 400
